@@ -135,6 +135,15 @@ fn is_digit(s: &str) -> bool {
     !s.is_empty() && s.chars().all(|c| c.is_ascii_digit())
 }
 
+/// Whether `word` is spelled like an identifier but is one of the language's reserved words.
+pub(crate) fn is_reserved_word(word: &str) -> bool {
+    if !is_alpha(word) {
+        return false;
+    }
+    let mut scanner = Scanner::from_source(String::from(word));
+    scanner.scan_token().kind != TokenKind::Identifier
+}
+
 pub(crate) struct Scanner {
     source: String,
     start: usize,
